@@ -266,3 +266,143 @@ def corr_lists(cases, nproc=8):
     samples = [{'translate': bool(c[0]), 'flags': flag_names(c[2]), 'limit': c[3], 'patterns': c[4], 'exclude': c[5],
                 'outcome': e.split(' ')[0]} for c, e in list(zip(cases, exps))[:: max(1, len(cases) // 5)]]
     return result(len(cases), len(nontriv), dis, samples, {'outcomes': dict(kinds), 'bracex_items_pulled': sum(pulled)})
+
+
+# ----------------------------------------------------------------------------------------------
+# search: implementation vs the executable spec (Spec.v den / pden)
+# ----------------------------------------------------------------------------------------------
+
+def derived_alphabet(ast, extra='x', newline=False, slash=False):
+    import astgen
+    cs = sorted(c for c in astgen.chars_of(ast) if c not in (0x2f,))
+    al = [chr(c) for c in cs][:3]
+    for c in ('.',) + tuple(extra):
+        if c not in al:
+            al.append(c)
+    if newline:
+        al.append('\n')
+    if slash:
+        al.append('/')
+    return al
+
+
+def search_den(asts, configs, maxlen=4, nproc=16, use_filter=True, hidden='all'):
+    """asts: wire strings of pattern sequences; configs: list of (ci, dot, newline_in_alphabet).
+    hidden: 'all' | 'only' | 'none' - which names to evaluate when dot is off.
+    The spec gives a lower and an upper bound (they differ only on names with a protected leading dot).
+    Returns (evaluations, nontrivial, mismatches); mismatch = dict(pattern, ast, name, flags, impl, lb, ub, ...)."""
+    import_impl()
+    import astgen
+    from wcmatch import fnmatch as Fm
+    m = Model()
+    reqs = []
+    meta = []
+    for ast in asts:
+        for (ci, dot, nl) in configs:
+            al = derived_alphabet(ast, newline=nl)
+            names = list(astgen.names_upto(al, maxlen if len(al) <= 5 else maxlen - 1))
+            if not dot and hidden == 'only':
+                names = [n for n in names if n.startswith('.')]
+            elif not dot and hidden == 'none':
+                names = [n for n in names if not n.startswith('.')]
+            en = ','.join(enc(n) for n in names)
+            reqs.append('den 0 %d %d %s %s' % (ci, dot, ast, en))
+            reqs.append('den 1 %d %d %s %s' % (ci, dot, ast, en))
+            meta.append((ast, ci, dot, names))
+    outs = m.run(reqs, nproc=nproc)
+    evals = 0
+    nontriv = set()
+    mism = []
+    for k, (ast, ci, dot, names) in enumerate(meta):
+        pw, ubits = outs[2 * k].split(' ') if names else (outs[2 * k].split(' ')[0], '')
+        lbits = outs[2 * k + 1].split(' ')[1] if names else ''
+        pattern = dec(pw)
+        fl_ = Fm.FORCEUNIX | (Fm.IGNORECASE if ci else Fm.CASE) | (Fm.DOTMATCH if dot else 0) | \
+            (Fm.EXTMATCH if 'x' in ast else 0)
+        try:
+            cm = Fm.compile(pattern, flags=fl_)
+            got = [cm.match(n) for n in names]
+            if use_filter:
+                flt = set(Fm.filter(names, pattern, flags=fl_))
+                got2 = [n in flt for n in names]
+            else:
+                got2 = got
+        except Exception as e:
+            mism.append({'pattern': pattern, 'ast': ast, 'flags': flag_names(fl_), 'name': None, 'dot': bool(dot),
+                         'impl': 'EXC %s: %s' % (type(e).__name__, e), 'lb': None, 'ub': None})
+            continue
+        evals += len(names)
+        acc = 0
+        for n, ub, lb, g, g2 in zip(names, ubits, lbits, got, got2):
+            ub = ub == '1'
+            lb = lb == '1'
+            if ub:
+                acc += 1
+            for gi, api in ((g, 'compile().match'), (g2, 'filter')):
+                if (gi and not ub) or (lb and not gi):
+                    mism.append({'pattern': pattern, 'ast': ast, 'flags': flag_names(fl_), 'name': n, 'api': api,
+                                 'dot': bool(dot), 'ci': bool(ci), 'impl': gi, 'lb': lb, 'ub': ub})
+                    break
+        if 0 < acc < len(names):
+            nontriv.add((pattern, ci, dot))
+    return evals, len(nontriv), mism
+
+
+def search_pden(pps, configs, maxlen=5, nproc=16, root_names=False):
+    """pps: ppat wire strings; configs: list of dicts(ci, dot, gs, gl, mb, nodir?).  Names: all strings up to maxlen
+    over a derived alphabet that always contains '/', '.'."""
+    import_impl()
+    import astgen
+    from wcmatch import glob as Gm
+    m = Model()
+    reqs = []
+    meta = []
+    for pp in pps:
+        rooted = pp.startswith('R:')
+        for cf in configs:
+            al = derived_alphabet(pp, extra='x')[:3]
+            for c in ('.', '/'):
+                if c not in al:
+                    al.append(c)
+            names = [n for n in astgen.names_upto(al, maxlen if len(al) <= 4 else maxlen - 1)]
+            # relative patterns are compared on relative paths, rooted patterns on rooted paths
+            names = [n for n in names if n.startswith('/') == rooted]
+            en = ','.join(enc(n) for n in names)
+            for lb in (0, 1):
+                reqs.append('pden %d %d %d %d %d %d %s %s' % (lb, cf['ci'], cf['dot'], cf['gs'], cf['gl'], cf['mb'], pp, en))
+            meta.append((pp, cf, names))
+    outs = m.run(reqs, nproc=nproc)
+    evals = 0
+    nontriv = set()
+    mism = []
+    for k, (pp, cf, names) in enumerate(meta):
+        pw = outs[2 * k].split(' ')[0]
+        ubits = outs[2 * k].split(' ')[1] if names else ''
+        lbits = outs[2 * k + 1].split(' ')[1] if names else ''
+        pattern = dec(pw)
+        fl_ = Gm.FORCEUNIX | (Gm.IGNORECASE if cf['ci'] else Gm.CASE) | (Gm.DOTGLOB if cf['dot'] else 0) | \
+            (Gm.EXTGLOB if 'x' in pp else 0) | (Gm.GLOBSTAR if cf['gs'] else 0) | (Gm.GLOBSTARLONG if cf['gl'] else 0) | \
+            (Gm.MATCHBASE if cf['mb'] else 0)
+        try:
+            cm = Gm.compile(pattern, flags=fl_)
+            got = [cm.match(n) for n in names]
+            flt = set(Gm.globfilter(names, pattern, flags=fl_))
+            got2 = [n in flt for n in names]
+        except Exception as e:
+            mism.append({'pattern': pattern, 'ast': pp, 'flags': flag_names(fl_), 'name': None, 'cfg': cf,
+                         'impl': 'EXC %s: %s' % (type(e).__name__, e), 'lb': None, 'ub': None})
+            continue
+        evals += len(names)
+        acc = 0
+        for n, ub, lb, g, g2 in zip(names, ubits, lbits, got, got2):
+            ub = ub == '1'
+            lb = lb == '1'
+            acc += ub
+            for gi, api in ((g, 'compile().match'), (g2, 'globfilter')):
+                if (gi and not ub) or (lb and not gi):
+                    mism.append({'pattern': pattern, 'ast': pp, 'flags': flag_names(fl_), 'name': n, 'api': api,
+                                 'cfg': cf, 'impl': gi, 'lb': lb, 'ub': ub})
+                    break
+        if 0 < acc < len(names):
+            nontriv.add((pattern, tuple(sorted(cf.items()))))
+    return evals, len(nontriv), mism
